@@ -331,6 +331,57 @@ def iterstep(run, fx):
         run.broken('ITERSTEP', '*', 'expected >= 3 iterator instantiations, found %d' % seen)
 
 
+def derefadvance(run, fx, rule='ITERSTEP'):
+    """ITERSTEP at the use sites: a _utf_iterator only learns how many code units its character occupies when IT is dereferenced
+    (operator* hands the codec a reference to the iterator's own step length), so every `++it` / `it++` in the library is preceded, in
+    the same loop iteration, by a dereference of that same iterator VARIABLE -- a dereference of a temporary copy (`*it++`) teaches the
+    copy, and the variable then steps by a stale length: one unit into the middle of a surrogate pair or a multi-byte sequence."""
+    from .util import loop_bodies
+    n = 0
+    for fn in fx.all_fns():
+        if '_utf_iterator<' in fn.q:
+            continue                        # the iterator's own members (postfix ++ is written in terms of prefix ++ on *this)
+        incs = [e for _, e in fn.elements() if e['k'] == 'CXXOperatorCallExpr' and '_utf_iterator<' in (e.get('fq') or '') and (e.get('fq') or '').endswith('::operator++')]
+        if not incs:
+            continue
+        derefs = [e for _, e in fn.elements() if e['k'] == 'CXXOperatorCallExpr' and '_utf_iterator<' in (e.get('fq') or '') and (e.get('fq') or '').endswith('::operator*')]
+        lb = loop_bodies(fn)
+        dom_ = fn.dominators()
+
+        def var_of(e):
+            a = (e.get('args') or [None])[0]
+            if a is None:
+                return None
+            x = fn.strip_all_casts(fn.N(a))
+            return x.get('vid') if x.get('k') == 'DeclRefExpr' else None
+        for inc in incs:
+            v = var_of(inc)
+            if v is None:
+                continue
+            n += 1
+            bi = fn.block_of[inc['i']]
+            loops = [body for h, body in lb.items() if bi in body]
+            ok = False
+            for d in derefs:
+                if var_of(d) != v:
+                    continue
+                bd = fn.block_of[d['i']]
+                if not ((bd in dom_[bi] and bd != bi) or (bd == bi and fn.pos_of[d['i']] < fn.pos_of[inc['i']])):
+                    continue
+                if all(bd in body for body in loops):
+                    ok = True
+                    break
+            inst = '%s: ++ of a decoding iterator @%s' % (fn.q.split('graphite2::')[-1][:60], inc.get('ln'))
+            if ok:
+                run.held(rule, inst, fn.loc(inc), 'the same iterator variable is dereferenced earlier in the iteration', False)
+            else:
+                run.violated(rule, inst, fn.loc(inc), '%s advances a UTF iterator (line %s) that has not itself been dereferenced in this iteration (a dereference of a temporary copy, as in `*it++`, does '
+                             'not count): it steps by the length of the PREVIOUS character -- into the middle of a surrogate pair or multi-byte sequence; the text is decoded differently from the '
+                             'same scalars in another encoding' % (fn.q, inc.get('ln')))
+    if n < 4:
+        run.broken(rule, 'every ++ of a UTF iterator follows a dereference of the same iterator', 'expected at least 4 increments of _utf_iterator variables in the library, found %d' % n)
+
+
 def validateback(run, fx):
     """VALIDATEFIRST, the helper's own reads: _utf_codec<W>::validate(s, e) looks BACKWARDS from e to see whether the buffer ends inside a
     multi-unit sequence.  Interpreted (rules/ordint.py) on buffers of 0..6 units and on an inverted range, every unit taking every
@@ -710,6 +761,7 @@ def run(run):
         finally:
             run._sharing = False
     iterstep(run, fx)
+    derefadvance(run, fx)
     from . import c12
     from .util import OnlyRules
     for f_ in (c12.nulstop, c12.textexec):      # gr_make_seg decodes with the same iterator: it consumes exactly the text in every encoding, whatever was decoded before (shared with C12)
